@@ -205,38 +205,108 @@ ALIASES = {
     'Transform-default==three_point-inverse':
         "lambda IM: (abel.Transform(IM).transform, abel.Transform(IM, direction='inverse', method='three_point', "
         "transform_options=dict(basis_dir=None)).transform)",
+    'Transform-angular_integration==angular_integration_3D(transform)':
+        "lambda IM: (np.array(abel.Transform(IM, angular_integration=True, transform_options=dict(basis_dir=None)).angular_integration), "
+        "np.array(vmi.angular_integration_3D(abel.Transform(IM, transform_options=dict(basis_dir=None)).transform)))",
+    'Transform-angular_integration-dr==angular_integration_3D(transform, dr)':
+        "lambda IM: (np.array(abel.Transform(IM, method='hansenlaw', angular_integration=True, transform_options=dict(dr=0.5)).angular_integration), "
+        "np.array(vmi.angular_integration_3D(abel.Transform(IM, method='hansenlaw', transform_options=dict(dr=0.5)).transform, dr=0.5)))",
+    'Transform-angular_integration-options==angular_integration_3D(transform, options)':
+        "lambda IM: (np.array(abel.Transform(IM, method='two_point', angular_integration=True, transform_options=dict(basis_dir=None), "
+        "angular_integration_options=dict(dr=2.0, dt=0.1)).angular_integration), "
+        "np.array(vmi.angular_integration_3D(abel.Transform(IM, method='two_point', transform_options=dict(basis_dir=None)).transform, dr=2.0, dt=0.1)))",
+    'Transform-origin-com==center_image+Transform':
+        "lambda IM: (abel.Transform(IM, method='hansenlaw', origin='com').transform, "
+        "abel.Transform(center.center_image(IM, method='com'), method='hansenlaw').transform)",
 }
 
-SNIP_ALIAS = SNIP_HEAD + '''
+# earlier calls with OTHER options must not change what a wrapper returns (no state carried from call to call)
+POLLUTE_SRC = '''
+def pollute(IM):
+    for kw in (dict(method='hansenlaw', transform_options=dict(dr=3.0), angular_integration=True),
+               dict(method='two_point', transform_options=dict(basis_dir=None, dr=0.25), angular_integration=True,
+                    angular_integration_options=dict(dt=0.5)),
+               dict(method='daun', direction='forward', transform_options=dict(basis_dir=None, verbose=False, dr=7.0, degree=2),
+                    symmetry_axis=(0, 1), angular_integration=True),
+               dict(method='basex', transform_options=dict(basis_dir=None, verbose=False, dr=0.1, reg=5.0), origin='convolution',
+                    center_options=dict(crop='valid_region'), use_quadrants=(True, False, True, False), symmetry_axis=0),
+               dict(method='onion_bordas', transform_options=dict(dr=2.0), symmetrize_method='fourier', symmetry_axis=1)):
+        try: abel.Transform(IM, **kw)
+        except Exception: pass
+    try:
+        vmi.angular_integration_3D(IM, dr=5.0, dt=0.3); vmi.harmonics(IM, order=4); vmi.Ibeta(IM, window=3)
+        center.find_origin(IM, 'gaussian', axes=1); center.set_center(IM, (3.5, 2.5), crop='maintain_data')
+    except Exception: pass
+def alias_check(f, IM):
+    # fresh state, then after unrelated calls with other options: both members must agree, and be unchanged
+    fresh(); a, b = f(IM); a, b = np.array(a, dtype=float), np.array(b, dtype=float)
+    pollute(IM.copy())
+    a2, b2 = f(IM); a2, b2 = np.array(a2, dtype=float), np.array(b2, dtype=float)
+    pollute(IM[::-1, :-1].copy())
+    b3, a3 = [np.array(v, dtype=float) for v in f(IM)][::-1]
+    return max(rel(a, b), rel(a2, b2), rel(a2, a), rel(b2, b), rel(a3, a), rel(b3, b))
+'''
+
+SNIP_ALIAS = SNIP_HEAD + POLLUTE_SRC + '''
 name, size, seed, tol = %(name)r, %(size)d, %(seed)d, %(tol)r
 f = %(fn)s
 rng = np.random.default_rng(seed)
 y, x = np.mgrid[:size, :size].astype(float)
 IM = np.exp(-((x - size / 2 + 0.7)**2 + (y - size / 2 - 0.4)**2) / (size / 4.)**2) * 100 + rng.random((size, size))
-a, b = f(IM)
-e = rel(np.array(a, dtype=float), np.array(b, dtype=float))
-print('%%s: results differ by %%.3e (tolerance %%.1e)' %% (name, e, tol))
+e = alias_check(f, IM)
+print('%%s: results (fresh state / after unrelated calls with other options) differ by %%.3e (tolerance %%.1e)' %% (name, e, tol))
 sys.exit(0 if e <= tol else 1)
 '''
 
-# alternatives that agree only within an accuracy envelope (numeric, calibrated)
-ALTERNATIVES = {
-    'hansenlaw-hold0~hold1-inverse': "lambda X: (abel.hansenlaw.hansenlaw_transform(X, hold_order=0), abel.hansenlaw.hansenlaw_transform(X, hold_order=1))",
-    'hansenlaw-hold0~hold1-forward': "lambda X: (abel.hansenlaw.hansenlaw_transform(X, direction='forward', hold_order=0), abel.hansenlaw.hansenlaw_transform(X, direction='forward', hold_order=1))",
-    'daun-deg0~deg1': "lambda X: (abel.daun.daun_transform(X, degree=0, verbose=False), abel.daun.daun_transform(X, degree=1, verbose=False))",
-    'daun-deg1~deg2': "lambda X: (abel.daun.daun_transform(X, degree=1, verbose=False), abel.daun.daun_transform(X, degree=2, verbose=False))",
-    'daun-deg2~deg3': "lambda X: (abel.daun.daun_transform(X, degree=2, verbose=False), abel.daun.daun_transform(X, degree=3, verbose=False))",
-    'direct-correction~hansenlaw': "lambda X: (abel.direct.direct_transform(X, backend='python'), abel.hansenlaw.hansenlaw_transform(X, hold_order=1))",
-}
+# alternatives that agree only within an accuracy envelope (numeric, calibrated on the unchanged tree at dr = 1; the
+# relative differences do not depend on dr, so the same envelope is used for every dr)
+MEMBERS = {}      # name -> (source of lambda X, dr: result, direction)
+for _d in ('forward', 'inverse'):
+    for _h in (0, 1):
+        MEMBERS['hansenlaw-hold%d-%s' % (_h, _d)] = ("lambda X, dr: abel.hansenlaw.hansenlaw_transform(X, dr=dr, direction=%r, hold_order=%d)" % (_d, _h), _d)
+    for _g in range(4):
+        MEMBERS['daun-deg%d-%s' % (_g, _d)] = ("lambda X, dr: abel.daun.daun_transform(X, degree=%d, dr=dr, direction=%r, verbose=False)" % (_g, _d), _d)
+    MEMBERS['direct-%s' % _d] = ("lambda X, dr: abel.direct.direct_transform(X, dr=dr, direction=%r, backend='python')" % _d, _d)
+    MEMBERS['basex-%s' % _d] = ("lambda X, dr: abel.basex.basex_transform(X, dr=dr, direction=%r, basis_dir=None, verbose=False)" % _d, _d)
+for _m in ('two_point', 'three_point', 'onion_peeling'):
+    MEMBERS['%s-inverse' % _m] = ("lambda X, dr: abel.dasch.%s_transform(X, basis_dir=None, dr=dr)" % _m, 'inverse')
+MEMBERS['onion_bordas-inverse'] = ("lambda X, dr: abel.onion_bordas.onion_bordas_transform(X, dr=dr)", 'inverse')
 
-SNIP_ALT = SNIP_HEAD + '''
-name, n, env = %(name)r, %(n)d, %(env)r
-f = %(fn)s
-r = np.arange(n, dtype=float)
-p = np.exp(-(r - 0.4 * n)**2 / (2 * (n / 10.)**2)) + 0.5 * np.exp(-r**2 / (2 * (n / 7.)**2))
-a, b = f(np.vstack([p, 3 * p]))
-e = rel(a, b)
-print('%%s n=%%d: alternatives differ by %%.3e (envelope %%.3e)' %% (name, n, e, env))
+ALT_PAIRS = [('hansenlaw-hold0-inverse', 'hansenlaw-hold1-inverse'), ('hansenlaw-hold0-forward', 'hansenlaw-hold1-forward'),
+             ('daun-deg0-inverse', 'daun-deg1-inverse'), ('daun-deg1-inverse', 'daun-deg2-inverse'), ('daun-deg2-inverse', 'daun-deg3-inverse'),
+             ('daun-deg0-forward', 'daun-deg1-forward'), ('daun-deg1-forward', 'daun-deg3-forward'),
+             ('direct-inverse', 'hansenlaw-hold1-inverse'), ('direct-forward', 'hansenlaw-hold1-forward'),
+             ('three_point-inverse', 'daun-deg2-inverse'), ('onion_bordas-inverse', 'onion_peeling-inverse'),
+             ('basex-inverse', 'three_point-inverse'), ('basex-forward', 'daun-deg2-forward')]
+
+ALT_SRC = '''
+def alt_profile(n):
+    r = np.arange(n, dtype=float)
+    p = np.exp(-(r - 0.4 * n)**2 / (2 * (n / 10.)**2)) + 0.5 * np.exp(-r**2 / (2 * (n / 7.)**2))
+    return np.vstack([p, 3 * p])
+def gauss_pair(n, dr):
+    # closed-form Abel pair on the grid r = arange(n)*dr: f = exp(-r^2/2s^2), F = sqrt(2 pi) s f
+    r = np.arange(n) * dr; s = 0.2 * n * dr
+    f = np.exp(-r**2 / (2 * s**2))
+    return np.vstack([f, -2 * f]), np.sqrt(2 * np.pi) * s * np.vstack([f, -2 * f])
+def member_error(fn, direction, n, dr):
+    f, F = gauss_pair(n, dr)
+    fresh()
+    return rel(fn(F, dr), f) if direction == 'inverse' else rel(fn(f, dr), F)
+def pair_difference(fa, fb, n, dr):
+    X = alt_profile(n)
+    fresh(); a = fa(X, dr); fresh(); b = fb(X, dr)
+    return rel(a, b)
+'''
+
+SNIP_ALT = SNIP_HEAD + ALT_SRC + '''
+kind, name, n, dr, env = %(kind)r, %(name)r, %(n)d, %(dr)r, %(env)r
+if kind == 'member':
+    e = member_error(%(fa)s, %(direction)r, n, dr)
+    print('%%s n=%%d dr=%%r: deviates from the closed-form Gaussian pair by %%.3e (envelope %%.3e)' %% (name, n, dr, e, env))
+else:
+    e = pair_difference(%(fa)s, %(fb)s, n, dr)
+    print('%%s n=%%d dr=%%r: the alternatives differ by %%.3e (envelope %%.3e)' %% (name, n, dr, e, env))
 sys.exit(0 if e <= env else 1)
 '''
 
@@ -255,23 +325,23 @@ def _globals():
         exec(RBASEX_SRC, _G)
         _G['rel'] = ac.rel_err
         exec(PAIR_SRC, _G)
+        exec(ALT_SRC, _G)
+        exec(POLLUTE_SRC, _G)
     return _G
 
 
-def alt_profile(n):
-    r = np.arange(n, dtype=float)
-    p = np.exp(-(r - 0.4 * n)**2 / (2 * (n / 10.)**2)) + 0.5 * np.exp(-r**2 / (2 * (n / 7.)**2))
-    return np.vstack([p, 3 * p])
-
-
 def calibrate(sizes=(40, 80, 120)):
+    G = _globals()
     env = {}
     with ac.quiet():
-        for name, src in ALTERNATIVES.items():
-            f = eval(src, _globals())
+        for name, (src, direction) in MEMBERS.items():
+            f = eval(src, G)
             for n in sizes:
-                a, b = f(alt_profile(n))
-                env['%s|%d' % (name, n)] = ac.rel_err(a, b)
+                env['member|%s|%d' % (name, n)] = G['member_error'](f, direction, n, 1.0)
+        for na, nb in ALT_PAIRS:
+            fa, fb = eval(MEMBERS[na][0], G), eval(MEMBERS[nb][0], G)
+            for n in sizes:
+                env['pair|%s~%s|%d' % (na, nb, n)] = G['pair_difference'](fa, fb, n, 1.0)
     json.dump(env, open(ENV_FILE, 'w'), indent=0, sort_keys=True)
     return env
 
@@ -377,17 +447,15 @@ def search(ctx, rng, enlarged):
                 r2 = np.random.default_rng(seed)
                 y, x = np.mgrid[:size, :size].astype(float)
                 IM = np.exp(-((x - size / 2 + 0.7)**2 + (y - size / 2 - 0.4)**2) / (size / 4.)**2) * 100 + r2.random((size, size))
-                ac.cleanup()
                 try:
-                    a, b = f(IM)
-                    e = ac.rel_err(np.array(a, dtype=float), np.array(b, dtype=float))
+                    e = G['alias_check'](f, IM)
                 except Exception as ex:    # noqa
                     e = float('inf')
-                n_eval += 1
+                n_eval += 3
                 distinct.add((name, size))
                 note('aliases', e, 1e-12)
                 if not e <= 1e-12:
-                    hits.append(Hit('wrappers', 'C17:' + name, '%s: results differ by %.2e on a %dx%d image' % (name, e, size, size),
+                    hits.append(Hit('wrappers', 'C17:' + name, '%s: results (fresh / after unrelated calls with other options) differ by %.2e on a %dx%d image' % (name, e, size, size),
                                     SNIP_ALIAS % dict(name=name, size=size, seed=seed, tol=1e-12, fn=src),
                                     dict(alias=name, size=size, difference=e)))
         # ---- alternatives within envelopes (numeric only) ----------------------------
@@ -395,25 +463,31 @@ def search(ctx, rng, enlarged):
             envs = json.load(open(ENV_FILE))
         except OSError:
             envs = {}
-        for name, src in ALTERNATIVES.items():
-            f = eval(src, G)
+        items = [('member', name, MEMBERS[name][0], None, MEMBERS[name][1]) for name in MEMBERS] + \
+                [('pair', '%s~%s' % (na, nb), MEMBERS[na][0], MEMBERS[nb][0], None) for na, nb in ALT_PAIRS]
+        for kind, name, sa, sb, direction in items:
+            fa = eval(sa, G)
+            fb = eval(sb, G) if sb else None
             for n in alt_sizes:
-                cal = envs.get('%s|%d' % (name, n))
+                cal = envs.get('%s|%s|%d' % (kind, name, n))
                 if cal is None:
                     continue
                 env = 1.5 * cal + 1e-12
-                try:
-                    a, b = f(alt_profile(n))
-                    e = ac.rel_err(a, b)
-                except Exception as ex:   # noqa
-                    e = float('inf')
-                n_eval += 1
-                distinct.add((name, n))
-                note('alternatives', e, env)
-                if not e <= env:
-                    hits.append(Hit('alternatives-envelope', 'C17:' + name,
-                                    '%s n=%d: alternatives differ by %.3e, envelope %.3e' % (name, n, e, env),
-                                    SNIP_ALT % dict(name=name, n=n, env=env, fn=src), dict(pair=name, n=n, difference=e)))
+                for dr in (0.4, 1.0, 2.5):
+                    try:
+                        e = G['member_error'](fa, direction, n, dr) if kind == 'member' else G['pair_difference'](fa, fb, n, dr)
+                    except Exception as ex:   # noqa
+                        e = float('inf')
+                    n_eval += 1
+                    distinct.add((kind, name, n, dr))
+                    note('alternatives', e, env)
+                    if not e <= env:
+                        hits.append(Hit('alternatives-envelope', 'C17:%s:%s' % (kind, name),
+                                        '%s %s n=%d dr=%r: %s %.3e, envelope %.3e'
+                                        % (kind, name, n, dr, 'error against the closed-form Gaussian pair' if kind == 'member'
+                                           else 'alternatives differ by', e, env),
+                                        SNIP_ALT % dict(kind=kind, name=name, n=n, dr=dr, env=env, fa=sa, fb=sb or 'None', direction=direction),
+                                        dict(kind=kind, name=name, n=n, dr=dr, difference=e)))
     ac.cleanup()
     return hits, n_eval, len(distinct), worst, samples
 
@@ -441,7 +515,7 @@ def run(ctx):
                         'solution is feasible)',
                    samples=samples, worst_difference_over_tolerance=worst,
                    input_distribution=dict(pairs=len(PAIRS_HALF) + len(PAIRS_NONNEG), aliases=len(ALIASES),
-                                           alternatives=len(ALTERNATIVES), tolerance=RTOL))
+                                           alternatives=len(MEMBERS) + len(ALT_PAIRS), tolerance=RTOL))
     new = 0
     seen = set()
     for h in hits:
